@@ -257,3 +257,18 @@ Print Assumptions model_passes_checker.
 Theorem model_passes_spec_from_any_state : forall p st sels, spec_run (abs_state st) p (observe st p sels) = true.
 Proof. exact model_passes_spec. Qed.
 Print Assumptions model_passes_spec_from_any_state.
+
+(* ARBITRARY START CONTENTS.  Every list of pure values (any contents of any handles) is the abstraction of a state built
+   by the model's constructor cload (freshly allocated objects, the way a constructor or an unmarshaller builds them), and
+   that state satisfies sep; loading further values preserves sep.  Hence no theorem above assumes sep of an arbitrary
+   heap: "starting from arbitrary contents" = starting from cload_all cstate0 vs, followed by any program (sep_preserved). *)
+Theorem arbitrary_start_contents : forall vs,
+  sep (cload_all cstate0 vs) /\ abs_state (cload_all cstate0 vs) = map (fun nv => mkA false (fst nv) (snd nv)) vs.
+Proof. exact arbitrary_contents. Qed.
+Print Assumptions arbitrary_start_contents.
+Theorem load_preserves_sep : forall st n v, sep st -> sep (cload st n v).
+Proof. exact cload_sep. Qed.
+Print Assumptions load_preserves_sep.
+Theorem sep_from_arbitrary_contents : forall sc vs p, sep (fst (run_c sc (cload_all cstate0 vs) p)).
+Proof. exact (fun sc vs p => sep_run sc p _ (proj1 (arbitrary_contents vs))). Qed.
+Print Assumptions sep_from_arbitrary_contents.
